@@ -65,6 +65,41 @@ def archives(ctx, rnd, cb):
                     hdr[1] = sum(hdr[2:2 + hl]) & 0xff
             members.append(bytes(hdr) + data)
         res.append((b"".join(members) + b"\0", "generated"))
+    # 4. extended-header chains with a length field at a boundary: every small value (0 .. field size + 3) and the
+    #    exact/one-off remaining size, at every link of the chain, followed by every known header type
+    types = [0x00, 0x01, 0x02, 0x40, 0x41, 0x42, 0x50, 0x51, 0x52, 0x53, 0x54, 0xcc, 0x7f, 0xff]
+    for lv in (1, 2, 3):
+        for _ in range(2 if ctx.quick else 12):
+            f = {"level": lv, "method": b"-lh0-", "clen": 3, "length": 3, "crc": lb.crc16(b"abc"), "attr": 0x20, "os": ord('U'),
+                 "time": 0x21 if lv == 1 else 1000000000,
+                 "exts": [(1, b"name"), (2, b"d\xff"), (0x50, b"\xa4\x81")][:rnd.choice([1, 2, 3])]}
+            if lv == 1:
+                f["name"] = b""
+            hdr = lb.build_header(f)
+            fs = 4 if lv == 3 else 2
+            p = {1: hdr[0], 2: 24, 3: 28}[lv]
+            links = []
+            while p + fs <= len(hdr):
+                ln = int.from_bytes(hdr[p:p + fs], "little")
+                links.append(p)
+                if ln == 0 or ln < fs:
+                    break
+                p += ln
+            for p in links:
+                rest = len(hdr) - p - fs
+                for v in sorted(set(list(range(0, fs + 4)) + [rest - 1, rest, rest + 1, rest + fs])):
+                    if v < 0 or v >= 1 << (8 * fs):
+                        continue
+                    for t in (types if v <= fs + 1 else types[:3]):
+                        h = bytearray(hdr)
+                        h[p:p + fs] = v.to_bytes(fs, "little")
+                        if p + fs < len(h):
+                            h[p + fs] = t
+                        else:
+                            h.append(t)
+                        if lv == 1:
+                            h[1] = sum(h[2:2 + h[0]]) & 0xff
+                        res.append((bytes(h) + b"abc" + bytes(rnd.choice([0, 3, 40])), "ext-boundary"))
     return res
 
 
@@ -127,9 +162,9 @@ def run(ctx):
                              "observed": ab, "exit": rc, "sig": "toolcrash:" + ab[:60],
                              "how_to_replay": "write archive_hex to a.lzh; lha %s a.lzh (sanitizer build)" % " ".join(mode)})
         cov = {"evaluations": len(lines) + len(jobs), "distinct_nontrivial": nontriv + len(jobs),
-               "rule": "three archive streams (unstructured bytes with plausible signatures; mutations of the repository's archives: "
+               "rule": "four archive streams (unstructured bytes with plausible signatures; mutations of the repository's archives: "
                        "bit flips, overwrites, deletions, insertions, truncations; generated multi-member archives with one length field "
-                       "set to 0, min-1, +-1, max, 1 MiB(+1)), each (a) iterated through the library with the four stream kinds and "
+                       "set to 0, min-1, +-1, max, 1 MiB(+1); level 1-3 extended-header chains with the length field of every link set to 0 .. field size + 3 and to the remaining size -1/0/+1/+field size, followed by each known header type), each (a) iterated through the library with the four stream kinds and "
                        "compared with the model, (b) given to the sanitizer build of the tool in one of the modes l v lv vv t p xn x "
                        "xq2f e as uid 65534 in a scratch directory. non-trivial = archive that yields at least one header / a tool run",
                "distribution": dict(dist), "samples": [lines[0][:160], lines[len(lines) // 2][:160], lines[-1][:160]]}
